@@ -173,7 +173,8 @@ CHECKS["C05"] = {
              " R05.12: no kernel or helper that an Arm method hands a view of its stored joint vector to (angleMod hands its argument back, reshape is a view) writes into that argument (effects summary of the callee)."
              " R05.12 also covers stores the method itself makes into such a view."
              ' The joint-limit clamp is decided by exhaustive case analysis (sa/rules/clampcase.py): thetaProtector is interpreted element-wise on one representative per order cell of (joint value, lower limit, upper limit, numeric constants in the code) with np.any guards explored both ways; in every cell the result must be the clamp to the stored limits. R05.14: the body screw list is re-derived from the current home pose and space screws after the last write of either (typestate shared with C06 R06.1).'
-             ' R05.15: restoreOriginalEE stores the original home tool pose on every path (a skipping path only under equality of the two poses as whole transforms). R05.16: wherever a joint argument defaulting to None is replaced from the stored joint vector, the replacement is that vector itself (copy / reshape / angle wrap only), also through a resolving helper that hands its argument back. R05.17: the backup home tool pose (_original_end_effector_home) is read only by restoreOriginalEE (state dumps and comparisons aside): no pose query computes with it.'),
+             ' R05.15: restoreOriginalEE stores the original home tool pose on every path (a skipping path only under equality of the two poses as whole transforms). R05.16: wherever a joint argument defaulting to None is replaced from the stored joint vector, the replacement is that vector itself (copy / reshape / angle wrap only), also through a resolving helper that hands its argument back. R05.17: the backup home tool pose (_original_end_effector_home) is read only by restoreOriginalEE (state dumps and comparisons aside): no pose query computes with it.'
+             ' R05.18: the same memo-coherence rule over FK / FKLink / FKJoint / getEEPos / getJointTransforms.'),
     "note": "Trusted: FKinSpace (C02); parameters documented as transforms are transforms; num_dof >= 1.",
 }
 
@@ -367,7 +368,8 @@ CHECKS["C11"] = {
              " R11.5: getActuatorLoc(i, 't'/'b') is getUnitVec(own joint of leg i, other joint of leg i, configured offset) with the offset the configured constant itself (never a function of the current leg length), and getUnitVec is first point + unit(second - first) * distance (reference comparison)."
              " R11.6: every path of the four statics methods of Robot records the forces it worked with in self._last_tau, whatever optional arguments it was called with (sumActuatorWrenches() and the other force queries default to it)."
              " R11.2: constant-trip loops containing `continue` are lowered to branches before unrolling; a leg left out exactly when its force is zero counts as contributed, any other condition under which a leg's wrench is skipped is reported with that condition."
-             ' R11.7: the leg wrenches are forces at points for every magnitude - makeWrench / Wrench construction held to [p x f ; f] on all paths (rule function of C12 R12.3 run under this property). R11.8: backward def-use flow (sa/rules/roleflow.py) from the fields the mass-carrying statics reads, through the setters and newSP, to the definition entries read by loadSP: <C>Mass entries reach the mass field and <C>COGD entries (or lengths inferred from the extensions) the centre-of-gravity field of the SAME component, on every loader path.'),
+             ' R11.7: the leg wrenches are forces at points for every magnitude - makeWrench / Wrench construction held to [p x f ; f] on all paths (rule function of C12 R12.3 run under this property). R11.8: backward def-use flow (sa/rules/roleflow.py) from the fields the mass-carrying statics reads, through the setters and newSP, to the definition entries read by loadSP: <C>Mass entries reach the mass field and <C>COGD entries (or lengths inferred from the extensions) the centre-of-gravity field of the SAME component, on every loader path.'
+             ' R11.9: memo coherence (rule function shared with R08.7 / R06.8) over the inverseJacobian* / jacobian* / staticForces* / carryMassCalc* methods of SP: a field such a method stores and can read back from an earlier call must be discarded by every method that writes a field it was computed from; a keyed memo is covered only for what its key compares.'),
     "note": "Trusted: makeWrench / Wrench layout (C12); Robot statics table (C06).",
 }
 
